@@ -6,7 +6,7 @@
    Refuted on the faithful model (recorded defects): dotted attribute spelling, scope of attribute
    modifications. *)
 From Coq Require Import List ZArith Bool PArith.
-From PV Require Import Lib.ClassTree Lib.Inst Model.C07_flatten Model.C08_modify Proofs.C08_modify.
+From PV Require Import Lib.ClassTree Lib.Inst Model.C07_flatten Model.C08_modify Proofs.C07_flatten Proofs.C08_modify.
 Import ListNotations.
 
 (* modify_symbol applies `inner ++ outer` by setattr in list order, where `inner` are the arguments of
@@ -98,6 +98,21 @@ Theorem C08_leaf_conversion (env sc : option path) (n : ident) (ms : list mval) 
   option_map entry_expr (attr_lookup a (flat_args env (to_symbol_mods (MArg sc [n] ms)))).
 Proof. exact (leaf_conversion env sc n ms a). Qed.
 Print Assumptions C08_leaf_conversion.
+
+(* C08_extends_clause_env — first step of the whole-library refinement with modifications: for a class whose
+   extends clauses (with arbitrary modifiers) name extends-free classes, the modification environment after
+   flatten_extends (tree.py:303-328) is the clause modifiers in clause order followed by the incoming
+   environment (of the enclosing component or the deriving clause).  Since arguments are applied in list
+   order (C08_outermost), the incoming — outer — source wins over the clause, and the clause over the
+   base's own declarations, which is the order of the specification's `elems` (mods ++ clause entries,
+   first match).  NOT proved: the lift to the attributes of the inherited leaves (build_leaf_list). *)
+Theorem C08_extends_clause_env (root : list cdef) (f : nat) (c : cdef) (lex : path) (menv : list marg)
+        (bases : list (cdef * path)) :
+  Forall2 (simple_base_m root c lex) (c_exts c) bases -> c_kind c <> kBuiltin ->
+  exists x, flatten_extends root (S (S f)) c lex menv = Ok x /\
+            x_menv x = flat_map snd (c_exts c) ++ menv.
+Proof. exact (flatten_extends_clause_env root f c lex menv bases). Qed.
+Print Assumptions C08_extends_clause_env.
 
 (* recorded defect: model C Real x; end C; model B C c; end B; model M B b(<m>); end M;
    <m> = c.x(start = 3) sets start;  <m> = c.x.start = 3 becomes the equation b.c.x = 3 and leaves start
